@@ -2026,7 +2026,8 @@ func runC17(c *ctx) {
 // stdout or stdin closed) or the real Engine.Run.  Every session is
 //   - judged by the oracle: for every position handed to TEIGetMove the engine process must receive a `position tps` line that
 //     declares exactly that position - squares, side to move AND move number (class client-position-line-wrong) - followed by the
-//     go line that carries the deadline and the four clock values in whole milliseconds (client-go-line-wrong); a clean
+//     go line that carries the deadline and the four clock values in whole milliseconds (client-go-line-wrong; a context with
+//     a deadline must never reach the engine as `movetime 0` or without movetime: client-deadline-uncapped); a clean
 //     `bestmove <move>` answer must come back as that move (client-move-wrong); a player of an earlier game is refused
 //     before anything is written (client-dead-player);
 //   - a model case: the lines the client wrote and what every call returned (move / error class / panic class / hang) = L1,
@@ -2272,11 +2273,13 @@ func c17GenSessions(c *ctx) []*c17Sess {
 		ps := somePos(size, 2+r.Intn(6))
 		for _, a := range ps {
 			dl := "-"
-			switch r.Intn(4) {
+			switch r.Intn(6) {
 			case 0:
-				dl = strconv.Itoa(-r.Intn(5000))
-			case 1:
+				dl = strconv.Itoa(-r.Intn(5000)) // passed
+			case 1, 2:
 				dl = strconv.Itoa(3600000 * (1 + r.Intn(200)))
+			case 3:
+				dl = "us" + strconv.Itoa(1+r.Intn(999)) // less than a millisecond ahead
 			}
 			tc := "-"
 			if r.Intn(5) != 0 {
@@ -2503,10 +2506,33 @@ func c17Clients(c *ctx, bin string) {
 			mt := ""
 			var goWant string
 			var sayable bool
-			if res == "P:err:short" {
-				if _, sayable = c17GoLineOracle("", tc); sayable {
-					c.printf("ORACLE-FAIL client-go-line-wrong | %s | request %d refused as too short | clocks %s can be said in milliseconds\n", in, qi, tc)
+			// the deadline as the harness set it: "-" none, "us<n>" n microseconds ahead, otherwise an offset in ms (<= 0: an hour ago)
+			dlShort, dlOff := false, int64(0)
+			setModelDl := func(ns int64) {
+				g := strings.Split(modelItems[ii], " ")
+				g[2] = "=" + strconv.FormatInt(ns, 10)
+				modelItems[ii] = strings.Join(g, " ")
+			}
+			if strings.HasPrefix(dl, "us") {
+				us, _ := strconv.ParseInt(dl[2:], 10, 64)
+				dlShort = true
+				setModelDl(us * 1000)
+			} else if dl != "-" {
+				dlOff, _ = strconv.ParseInt(dl, 10, 64)
+				if dlOff <= 0 {
+					dlShort = true
+					setModelDl(-3600000000000)
+				} else {
+					setModelDl(dlOff * 1000000) // replaced below by what the client measured, when it wrote a go line
+				}
+			}
+			if res == "P:err:short" || res == "P:panic:getmove-short" {
+				if _, sayable = c17GoLineOracle("", tc); sayable && !dlShort {
+					c.printf("ORACLE-FAIL client-go-line-wrong | %s | request %d refused as too short | deadline %s and clocks %s can be said in milliseconds\n", in, qi, dl, tc)
 					bad = true
+				}
+				if dlShort {
+					c.stat("client_deadline_refused", 1)
 				}
 				continue
 			}
@@ -2521,25 +2547,24 @@ func c17Clients(c *ctx, bin string) {
 			}
 			w = strings.Fields(l)
 			if dl != "-" {
-				// the deadline: a past one is "movetime 0"; a future one lies within 20 s below the offset (measured by the client)
+				// a context with a deadline must cap the engine: `movetime 0` (or no movetime) is read by the engine as "no limit"
 				if len(w) >= 3 && w[1] == "movetime" {
 					mt = w[2]
 				}
-				off, _ := strconv.ParseInt(dl, 10, 64)
 				x, err := strconv.ParseInt(mt, 10, 64)
-				if err != nil || (off <= 0 && x != 0) || (off > 0 && (x > off || x < off-20000)) {
+				if dlShort || err != nil || x <= 0 {
+					c.printf("ORACLE-FAIL client-deadline-uncapped | %s | request %d: deadline %s (less than 1 ms ahead: %v), go line %q | a deadline less than a millisecond away is refused (Timeout too short); otherwise movetime = the time left in whole ms, at least 1\n", in, qi, dl, dlShort, l)
+					bad = true
+					continue
+				}
+				// a future one lies within 20 s below the offset (measured by the client)
+				if x > dlOff || x < dlOff-20000 {
 					c.printf("ORACLE-FAIL client-go-line-wrong | %s | request %d: deadline %s ms from now, go line %q | movetime = the time left in ms\n", in, qi, dl, l)
 					bad = true
 					continue
 				}
 				// the model is given the time left as the client measured it
-				ns := x * 1000000
-				if off <= 0 {
-					ns = -3600000000000
-				}
-				g := strings.Split(modelItems[ii], " ")
-				g[2] = "=" + strconv.FormatInt(ns, 10)
-				modelItems[ii] = strings.Join(g, " ")
+				setModelDl(x * 1000000)
 			}
 			goWant, sayable = c17GoLineOracle(mt, tc)
 			c.stat("client_go_lines", 1)
